@@ -42,17 +42,24 @@ func corpus() [][]sh.Op {
 		// entity removal: workload removal deletes its status; node removal leaves the node status until it expires
 		append(setup(), ws("w0", true, 9), ns(5), sh.Op{Kind: "RemoveWorkload", W: wl("w0", "a0_e0_s", "n0")}, gw,
 			sh.Op{Kind: "AddWorkload", W: wl("w0", "a0_e0_s", "n0")}, gw, sh.Op{Kind: "RemoveNode", N: "n0", P: "p0"}, gn, adv(5), gn, ns(2)),
+		// identical re-report (same value, same ttl, before expiry) after the entity is gone must be rejected:
+		// node removed; workload record removed through another node name (its status record survives)
+		append(setup(), ns(6), adv(1), sh.Op{Kind: "RemoveNode", N: "n0", P: "p0"}, ns(6), adv(4), gn, adv(2), gn),
+		append(setup(), ws("w0", true, 6), adv(1), sh.Op{Kind: "RemoveWorkload", W: wl("w0", "a0_e0_s", "n1")}, ws("w0", true, 6), gw, adv(6),
+			sh.Op{Kind: "AddWorkload", W: wl("w0", "a0_e0_s", "n0")}, gw),
+		// ttl > 0, then the same value without ttl: the old deadline must be dropped
+		append(setup(), ws("w0", true, 3), adv(1), ws("w0", true, 0), adv(5), gw, ws("w0", true, 4), adv(3), ws("w0", true, 0), adv(2), gw),
 		// WITNESS (Redis): node status accepted for a node that does not exist
 		{ns(3), gn},
 		// report under other names than the workload's own: stored under another key, invisible through the workload
-		append(setup(), sh.Op{Kind: "SetWorkloadStatus", St: wst("w0", true), A: "a1", E: "e0", N: "n0", TTL: 5}, gw,
+		append(setup(), sh.Op{Kind: "SetWorkloadStatus", St: wst("w0", true), A: "a0x", E: "e0", N: "n0", TTL: 5}, gw,
 			sh.Op{Kind: "SetWorkloadStatus", St: wst("w0", true), A: "a0", E: "", N: "n0", TTL: 5}),
 	}
 }
 
 func TestC25(t *testing.T) {
 	r := vh.New(t, "C25", "status")
-	r.Coq("From Verif Require Import Store.KVPrims Store.Ops Store.Case Store.Case25.", "Case.case", "Case.agree", "Case25.ok25")
+	r.Coq("From Verif Require Import Store.KVPrims Store.Ops Store.Case Store.Case25.", "Case25.case25", "Case25.agree25", "Case25.ok25")
 	r.Shard = 12
 	r.Extra("Local Open Scope string_scope.")
 	r.Extra(sh.ProbeDef())
@@ -98,8 +105,14 @@ func TestC25(t *testing.T) {
 		r.Count("src=" + src)
 		r.Count(fmt.Sprintf("redis_nodestatus_missing_node=%v", nodeDiv))
 		desc := map[string]any{"source": src, "steps": steps, "etcd_time": map[bool]string{false: "virtual (lease revoke at the virtual deadline)", true: "real seconds"}[e.Real]}
-		tags := map[string]any{"redis_nodestatus_missing_node": nodeDiv, "src": src}
-		r.Add(sh.CaseTerm(items), desc, tags, accepted >= 2 && reads >= 1)
+		term := sh.CaseTerm(items)
+		if !nodeDiv {
+			r.Add("(true, true, "+term+")", desc, map[string]any{"redis_nodestatus_missing_node": false, "judged": "both", "src": src}, accepted >= 2 && reads >= 1)
+		} else {
+			// judged separately, so that the known Redis finding cannot hide an etcd violation
+			r.Add("(true, false, "+term+")", desc, map[string]any{"redis_nodestatus_missing_node": false, "judged": "etcd", "src": src}, accepted >= 2 && reads >= 1)
+			r.Add("(false, true, "+term+")", desc, map[string]any{"redis_nodestatus_missing_node": true, "judged": "redis", "src": src}, false)
+		}
 	}
 
 	for _, ops := range corpus() {
@@ -118,7 +131,7 @@ func TestC25(t *testing.T) {
 			ops = append(ops, o)
 		}
 		if i%2 == 0 {
-			o := sh.Op{Kind: "AddWorkload", W: wl("w1", "a1_e1_s", "n0")}
+			o := sh.Op{Kind: "AddWorkload", W: wl("w1", "a0x_e0-t_s", "n0")}
 			g.S.Apply(o)
 			ops = append(ops, o)
 		}
